@@ -155,7 +155,20 @@ def module_tables():
         for attr, val in sorted(vars(m).items()):
             if attr.startswith("__") and attr.endswith("__"):
                 continue
-            if isinstance(val, (types.ModuleType, type)):
+            if isinstance(val, type):
+                # class-level data of classes defined here (counters, flags, shared mutable defaults)
+                if getattr(val, "__module__", None) == m.__name__:
+                    for cattr, cval in sorted(vars(val).items()):
+                        if cattr.startswith("__") and cattr.endswith("__"):
+                            continue
+                        if callable(cval) or isinstance(cval, (property, staticmethod, classmethod, types.MemberDescriptorType,
+                                                               types.GetSetDescriptorType, types.FunctionType)):
+                            continue
+                        if hasattr(cval, "__get__") and not isinstance(cval, (dict, list, set, tuple, str, int, float, bool, type(None))):
+                            continue
+                        out[f"{m.__name__}.{attr}.{cattr}"] = cval
+                continue
+            if isinstance(val, types.ModuleType):
                 continue
             if attr == "open":
                 continue  # the seam itself
@@ -163,8 +176,10 @@ def module_tables():
                 if getattr(val, "__module__", None) == m.__name__ or attr in (
                     "load_one", "load_many", "dump_one", "dump_many", "write_input", "prepare_dump"
                 ):
-                    for fa in _FUNC_ATTRS:
-                        if hasattr(val, fa):
+                    for fa in sorted(set(_FUNC_ATTRS) | set(getattr(val, "__dict__", {}))):
+                        if fa.startswith("__"):
+                            continue
+                        if hasattr(val, fa) and not callable(getattr(val, fa)):
                             out[f"{m.__name__}.{attr}.{fa}"] = getattr(val, fa)
                     # Function-level mutable defaults are shared state too.
                     if val.__defaults__:
@@ -294,6 +309,15 @@ class TableGuard:
                 if rest[0] in vars(m):
                     entries.append((k, rest))
             lay.append((m, len(vars(m)), entries))
+        # classes and functions of iodata whose own attribute dictionaries may grow (class-level counters, flags set on functions)
+        self.sub = []
+        for m in _iodata_modules():
+            for val in vars(m).values():
+                if isinstance(val, (type, types.FunctionType)) and getattr(val, "__module__", None) == m.__name__:
+                    try:
+                        self.sub.append((val, set(vars(val))))
+                    except TypeError:
+                        pass
         return lay
 
     def _fast(self):
@@ -303,6 +327,8 @@ class TableGuard:
         parts = []
         lay = getattr(self, "layout", None)
         items = None
+        if lay is not None and any(len(vars(obj)) != len(names) for obj, names in getattr(self, "sub", [])):
+            lay = None  # an attribute appeared on a class or function: complete path
         if lay is not None:
             items = []
             for m, nvars, entries in lay:
@@ -368,6 +394,14 @@ class TableGuard:
             for k, rest in entries:
                 if len(rest) == 1 and k in self.bound and vars(m).get(rest[0]) is not self.bound[k]:
                     setattr(m, rest[0], self.bound[k])
+        # remove attributes that appeared on classes / functions since the snapshot
+        for obj, names in getattr(self, "sub", []):
+            for a in list(vars(obj)):
+                if a not in names:
+                    try:
+                        delattr(obj, a)
+                    except (AttributeError, TypeError):
+                        pass
         # remove module-level names that appeared since the snapshot
         for m in _iodata_modules():
             known = self.modnames.get(m.__name__)
